@@ -279,6 +279,8 @@ package internal
 //@   inline
 //@ spec func tileHit(tiles []bgzf.Offset, first int, j int, beg int, end int, ce int64) bool =
 //@     (j == first || tiles[j].File != 0 || tiles[j].Block != 0) && (j + 1) * 16384 >= beg && j * 16384 <= end && ce > voff(tiles[j])
+//@ spec func ivo(o bgzf.Offset) int64 = o.File*65536 + int64(o.Block)
+//@ spec func wfC(c bgzf.Chunk) bool = okOff(c.Begin) && okOff(c.End) && ivo(c.Begin) <= ivo(c.End)
 //@ func Index.Chunks
 //@   mode int
 //@   props C04
@@ -286,21 +288,25 @@ package internal
 //@   requires i != nil && i.IsSorted && validIv(beg, end)
 //@   requires (0 <= rid && rid < len(i.Refs)) ==> (binsValid(i.Refs[rid].Bins) && binsSorted(i.Refs[rid].Bins) && binsSmall(i.Refs[rid].Bins) &&
 //@       (forall t in 0..len(i.Refs[rid].Intervals) :: okOff(i.Refs[rid].Intervals[t])))
+//@   requires (0 <= rid && rid < len(i.Refs)) ==> (forall a in 0..len(i.Refs[rid].Bins) :: forall k in 0..len(i.Refs[rid].Bins[a].Chunks) :: wfC(i.Refs[rid].Bins[a].Chunks[k]))
 //@   ghost w map[int]int
 //@   ghost done map[int]bool
 //@   macro got(cc int, k int) bool = 0 <= w[cc * 1048576 + k] && w[cc * 1048576 + k] < len(chunks) && chunks[w[cc * 1048576 + k]] == ref.Bins[cc].Chunks[k]
 //@   macro want(cc int, k int, j int) bool = tileHit(ref.Intervals, iv, j, beg, end, voff(ref.Bins[cc].Chunks[k].End))
 //@   at append#0 ghost w[c * 1048576 + rangeindex1 + 1] = len(dst); done[c * 1048576 + rangeindex1 + 1] = true
-//@   loop 0 invariant @own cap(chunks) == 0 || fresh(chunks)
+//@   loop 0 invariant @own chunks.off == 0 && (cap(chunks) == 0 || fresh(chunks))
+//@   loop 0 invariant @wf forall m in 0..len(chunks) :: wfC(chunks[m])
 //@   loop 0 invariant @done forall cc in 0..len(ref.Bins) :: forall k in 0..len(ref.Bins[cc].Chunks) :: done[cc * 1048576 + k] ==> got(cc, k)
 //@   loop 0 invariant @bins forall t in 0..rangeindex + 1 :: forall cc in 0..len(ref.Bins) :: forall k in 0..len(ref.Bins[cc].Chunks) :: forall j in iv..len(ref.Intervals) ::
 //@       (ref.Bins[cc].Bin == rangeslice[t] && want(cc, k, j)) ==> done[cc * 1048576 + k]
-//@   loop 1 invariant @own cap(chunks) == 0 || fresh(chunks)
+//@   loop 1 invariant @own chunks.off == 0 && (cap(chunks) == 0 || fresh(chunks))
+//@   loop 1 invariant @wf forall m in 0..len(chunks) :: wfC(chunks[m])
 //@   loop 1 invariant @done forall cc in 0..len(ref.Bins) :: forall k in 0..len(ref.Bins[cc].Chunks) :: done[cc * 1048576 + k] ==> got(cc, k)
 //@   loop 1 invariant @bins forall t in 0..rangeindex0 + 1 :: forall cc in 0..len(ref.Bins) :: forall k in 0..len(ref.Bins[cc].Chunks) :: forall j in iv..len(ref.Intervals) ::
 //@       (ref.Bins[cc].Bin == rangeslice0[t] && want(cc, k, j)) ==> done[cc * 1048576 + k]
 //@   loop 1 invariant @chunks forall k in 0..rangeindex + 1 :: forall j in iv..len(ref.Intervals) :: want(c, k, j) ==> done[c * 1048576 + k]
-//@   loop 2 invariant @own cap(chunks) == 0 || fresh(chunks)
+//@   loop 2 invariant @own chunks.off == 0 && (cap(chunks) == 0 || fresh(chunks))
+//@   loop 2 invariant @wf forall m in 0..len(chunks) :: wfC(chunks[m])
 //@   loop 2 invariant @done forall cc in 0..len(ref.Bins) :: forall k in 0..len(ref.Bins[cc].Chunks) :: done[cc * 1048576 + k] ==> got(cc, k)
 //@   loop 2 invariant @bins forall t in 0..rangeindex0 + 1 :: forall cc in 0..len(ref.Bins) :: forall k in 0..len(ref.Bins[cc].Chunks) :: forall j in iv..len(ref.Intervals) ::
 //@       (ref.Bins[cc].Bin == rangeslice0[t] && want(cc, k, j)) ==> done[cc * 1048576 + k]
@@ -312,6 +318,10 @@ package internal
 //@       (ovl(ref.Bins[cc].Bin, beg, end) && want(cc, k, j)) ==> got(cc, k)
 //@   at stmt "sort.Sort(byBeginOffset(chunks))" assert forall cc in 0..len(ref.Bins) :: forall k in 0..len(ref.Bins[cc].Chunks) :: forall j in iv..len(ref.Intervals) ::
 //@       (ovl(ref.Bins[cc].Bin, beg, end) && want(cc, k, j)) ==> exists m in 0..len(chunks) :: chunks[m] == ref.Bins[cc].Chunks[k]
+//@   ensures[C04] @answers (0 <= rid && rid < len(i.Refs) && div(beg, 16384) < len(i.Refs[rid].Intervals)) ==> result1 == nil
+//@   ensures @own cap(result0) == 0 || fresh(result0)
+//@   ensures[C04] @wf forall m in 0..len(result0) :: wfC(result0[m])
+//@   ensures[C04] @sorted forall a in 0..len(result0) :: forall b in a..len(result0) :: ivo(result0[a].Begin) <= ivo(result0[b].Begin)
 //@   ensures[C04] @complete result1 == nil ==> (forall cc in 0..len(i.Refs[rid].Bins) :: forall k in 0..len(i.Refs[rid].Bins[cc].Chunks) :: forall j in div(beg, 16384)..len(i.Refs[rid].Intervals) ::
 //@       (ovl(i.Refs[rid].Bins[cc].Bin, beg, end) &&
 //@        tileHit(i.Refs[rid].Intervals, div(beg, 16384), j, beg, end, voff(i.Refs[rid].Bins[cc].Chunks[k].End))) ==>
